@@ -444,9 +444,18 @@ func c20units(tier string) []mc.Unit {
 			name string
 			data []byte
 		}{{"intact", doc}, {"cut inside the first entry", doc[:inside]}, {"cut inside the second entry", doc[:second]}, {"cut between the entries", doc[:between]}, {"mismatched end tag in the first entry", mism}}
+		files = append(files, struct {
+			name string
+			data []byte
+		}{"intact, written as two gzip members", doc})
 		for fi, f := range files {
 			path := filepath.Join(dir, fmt.Sprintf("f%d.xml.gz", fi))
-			os.WriteFile(path, c20gz(f.data), 0o644)
+			gzbytes := c20gz(f.data)
+			if strings.Contains(f.name, "two gzip members") {
+				cut := bytes.Index(f.data, []byte("<name>")) + 2 // the member boundary falls inside the first entry
+				gzbytes = append(c20gz(f.data[:cut]), c20gz(f.data[cut:])...)
+			}
+			os.WriteFile(path, gzbytes, 0o644)
 			complete, wf := c20scan(bytes.NewReader(f.data))
 			st := mc.Explore(mc.Options{DevBound: 0, PreemptBound: -1, Prune: true, Deadline: r.TimeUp}, func(c *mc.Ctx) bool {
 				var res c20run
